@@ -36,9 +36,11 @@ def run(ctx):
     ctx.guard(routes, ctx)
     ctx.guard(rop_identity, ctx, am)
     ctx.guard(ident, ctx)
+    ctx.guard(getter, ctx)
     ctx.guard(order, ctx)
     from . import c03 as _c03
     ctx.shared(_c03.keys, ctx, am)          # the loader's join keys decide which links a reloaded model has
+    ctx.shared(_c03.partition, ctx)         # every CREATE statement the writer emits is handed to the metamodel by exactly one pass, unfiltered
     ctx.shared(_c03.shared, ctx)            # the value a shared referential attribute is written with is read through the getter chain formalize installs
     ctx.assume('equality of loaded values, real rounding to six decimals and the fixed-point claim are runtime quantities and are not decided')
     ctx.assume('special floats (inf/nan) are outside the persistable domain')
@@ -50,6 +52,30 @@ def run(ctx):
 
 
 # ---------------------------------------------------------------------------
+def getter(ctx):
+    """the writer reads instance values through the attribute protocol (getattr / Class.__getattr__ / the properties formalize installs
+    for referential attributes), never from the raw instance dictionary, which may hold a stale copy of a referential value"""
+    repo = ctx.repo
+    r = ctx.rule('C01-GETTER', 'the writer reads attribute values through the attribute protocol, not from the raw instance dictionary', floor=1,
+                 oracle='Association.formalize: a referential attribute is a property computed from the link; C02-REF')
+    fn = repo.func('xtuml.persist:serialize_instance')
+    reads = [n for n in ast.walk(fn) if isinstance(n, ast.Call) and dotted(n.func) == 'getattr' and len(n.args) in (2, 3)]
+    r.check(bool(reads), 'serialize_instance reads each attribute with getattr(instance, name)', fn, construct='xtuml.persist:serialize_instance', key='getattr',
+            msg='serialize_instance no longer reads the attribute values with getattr(instance, name)')
+    for m in ('xtuml.persist',):
+        for f in ast.walk(repo.module(m).tree):
+            if not isinstance(f, ast.FunctionDef):
+                continue
+            for n in ast.walk(f):
+                raw = (isinstance(n, ast.Attribute) and n.attr == '__dict__') or \
+                    (isinstance(n, ast.Call) and dotted(n.func) in ('vars', 'object.__getattribute__'))
+                if raw:
+                    r.violation('%s reads `%s`: the raw instance dictionary may hold a stale copy of a referential attribute (instances created '
+                                'before the association was formalized, then related), while the value the model shows - and the loader links '
+                                'by - is the one computed through the link; the written text would not load back to the same links' % (f.name, src(n)),
+                                n, construct='%s:%s' % (m, f.name), key='raw-dict')
+
+
 def _dict_keys(fn, name):
     for n in ast.walk(fn):
         if isinstance(n, ast.Assign) and src(n.targets[0]) == name and isinstance(n.value, ast.Dict):
